@@ -327,6 +327,9 @@ fn dump(tcx: TyCtxt<'_>) {
 
     adt_records(&mut cx);
     hirdump::dump_sigs(&mut cx);
+    if std::env::var("OXFACTS_NO_HIR").is_err() {
+        hirdump::dump_consts(&mut cx);
+    }
     let mut tyc = tyclass::TyClass::new(tcx);
     let mut nbodies = 0usize;
     for ldid in tcx.hir_body_owners() {
